@@ -255,7 +255,9 @@ def mgmt_unit(M, which, op):
         else:
             p = object.__new__(M.blep.BlePairing)
             p._shutdown = False
-            p._restore_pending = False
+            # the link was down when the call was made: the operation reconnects first and subscriptions are restored afterwards
+            p._restore_pending = ex.fresh_bool("subscriptions_restored_after_the_call")
+            p._async_restore_subscriptions = nothing
             p._operation_lock = asyncio.Lock()
             p.description = None
             p.device = None
